@@ -112,10 +112,10 @@ func (l *baseLeaf) URLPath(vals map[string]string, withOptional bool) string {
 				continue
 			}
 
-			// Every bind parameter of the list takes part in the path, the only parameter
-			// that is not a bind is the capture limit of a match all.
+			// Every bind parameter of the list takes part in the path. A match all only
+			// has one, its other parameters (e.g. the capture limit) are not binds.
 			for i, p := range e.BindParameters.Parameters {
-				if i > 0 && p.Value.Regex == nil {
+				if i > 0 && (p.Value.Regex == nil || e.BindParameters.Parameters[0].Value.Regex == nil) {
 					continue
 				}
 				buf.WriteString("{")
